@@ -36,10 +36,59 @@ PER = {
             'has_compat(cp) == (NFKC(cp) != cp) is NOT proved deductively (NFKC internals): exhaustive native evaluation, labelled X'],
     'C09': ['bidi classes of code points unassigned in UnicodeData 16.0.0 are not checked (they never reach the rule through a profile)'],
     'C08': ['three algebraic facts about NFC used for usernames/OpaqueString are UNCHECKED axioms (see DESIGN.md C08)'],
-    'C16': ['only the sequential half is addressed: no claim about interleavings on the lazy_static singletons'],
+    'C16': ['threads: the argument is the frame (no shared mutable state in the two crates, checked syntactically on every run by scan.shared_state) + the sequential contracts; interleavings are only sampled by the native thread clause'],
     'C02': ['AsRef<str> implementations are pure (as_ref_view)'],
 }
 
 
 def standing_assumptions(pid):
     return STANDING + PER.get(pid, [])
+
+
+# ---- frame condition for C16: nothing in the two library crates can carry state from one call to another or between threads
+_STATE_RX = [
+    ('static mut', re.compile(r'\bstatic\s+mut\b')),
+    ('interior mutability', re.compile(r'\b(Atomic[A-Z]\w*|Cell|RefCell|UnsafeCell|Mutex|RwLock|OnceCell|OnceLock|LazyLock|LazyCell|Once|Condvar)\b')),
+    ('thread_local', re.compile(r'\bthread_local\s*!')),
+    ('unsafe', re.compile(r'\bunsafe\b')),
+]
+_LAZY_OK = {'UsernameCaseMapped', 'UsernameCasePreserved', 'OpaqueString', 'Nickname'}
+
+
+def shared_state(repo):
+    """Non-test code of precis-core/src and precis-profiles/src: every construct that could hold state shared between calls
+    or threads.  lazy_static singletons of the four stateless profile types are the only ones expected.
+    Returns a list of 'file:line: kind: text'."""
+    import os
+    from . import rustscan
+    out = []
+    for crate in ('precis-core/src', 'precis-profiles/src', 'precis-tools/src/generators'):
+        d = os.path.join(repo, crate)
+        if not os.path.isdir(d):
+            continue
+        for root, _, files in os.walk(d):
+            for fn in sorted(files):
+                # of precis-tools only the template that is compiled into precis-core
+                if not (fn.endswith('.rs') if not crate.startswith('precis-tools') else fn.endswith('.template')):
+                    continue
+                path = os.path.join(root, fn)
+                text = open(path, encoding='utf-8').read()
+                cut = text.find('#[cfg(test)]')
+                if cut >= 0:
+                    text = text[:cut]
+                m = rustscan.mask(text)
+                rel = os.path.relpath(path, repo)
+                for kind, rx in _STATE_RX:
+                    for mo in rx.finditer(m):
+                        ln = m.count('\n', 0, mo.start()) + 1
+                        out.append('%s:%d: %s: %s' % (rel, ln, kind, text.splitlines()[ln - 1].strip()[:120]))
+                for mo in re.finditer(r'\bstatic\s+ref\s+\w+\s*:\s*([^=;]+?)\s*=', m):
+                    ty = mo.group(1).strip()
+                    if ty not in _LAZY_OK:
+                        ln = m.count('\n', 0, mo.start()) + 1
+                        out.append('%s:%d: lazy static of type %s: %s' % (rel, ln, ty, text.splitlines()[ln - 1].strip()[:120]))
+                for mo in re.finditer(r'\bstatic\s+(?!ref\b|mut\b)(\w+)\s*:\s*([^=;]+?)\s*=', m):
+                    ty = mo.group(2)
+                    if re.search(r'\b(Atomic|Cell|Mutex|RwLock|Once|Lazy)', ty):
+                        continue  # already reported above
+    return out
